@@ -12,7 +12,8 @@ ASSUMPTIONS = [
 
 def run(tier, seed):
     common.PID_ALIAS.update({"SQLM": "C07", "KVW": "C07", "KVM": "C07"})
-    return common.drop_foreign(sqlm.suites_c07(tier, seed) + kvb.suites_c07(tier, seed), "C07")
+    from .. import extra
+    return common.drop_foreign(sqlm.suites_c07(tier, seed) + kvb.suites_c07(tier, seed) + [extra.suite_sqlite_kill(tier, seed)], "C07")
 
 
 def replay(payload):
